@@ -377,6 +377,11 @@ func VerifC06FSM() {
 			vAssert(len(files) == 0, "a deleted stream has no data left")
 		}
 	}
+	if j > 0 && j >= k-1 {
+		// the snapshot covers every committed command, or all but the last one
+		// (the situation of known finding F16)
+		vTag("snapshot-covers-log-end")
+	}
 	vSameStarted(canonA, canonC, "a restarted server (snapshot + log replay)")
 	vCover("done")
 }
